@@ -492,3 +492,101 @@ func guardListing(c *Ctx) {
 		c.S.Undecided("C14", "GUARD-LISTING", "floor", "-", fmt.Sprintf("only %d nested loops over the operations index found (confirmed by hand: 3)", n))
 	}
 }
+
+func init() {
+	register(Rule{
+		Name:  "GUARD-LOOKUPFLAG",
+		Props: []string{"C14", "C15"},
+		Doc:   "a (value, found) pair returned by a query comes from one and the same comma-ok lookup",
+		Run:   guardLookupFlag,
+	})
+}
+
+// guardLookupFlag: in exported *Spec methods returning (…pointer…, bool), a returned pointer that comes from a
+// map lookup must be returned with that lookup's own comma-ok flag (not with the flag of another lookup, and not
+// from a lookup taken without comma-ok).
+func guardLookupFlag(c *Ctx) {
+	n := 0
+	for _, fi := range specQueryMethods(c) {
+		sig := fi.Obj.Type().(*types.Signature)
+		k := sig.Results().Len()
+		if k < 2 || !core.IsBool(sig.Results().At(k-1).Type()) {
+			continue
+		}
+		info := c.info(fi)
+		ld := c.P.Locals(fi)
+		ast.Inspect(fi.Decl.Body, func(nd ast.Node) bool {
+			if _, isLit := nd.(*ast.FuncLit); isLit {
+				return false
+			}
+			r, ok := nd.(*ast.ReturnStmt)
+			if !ok || len(r.Results) != k {
+				return true
+			}
+			flag := core.Unparen(r.Results[k-1])
+			if tv, isC := info.Types[flag]; isC && tv.Value != nil {
+				return true // literal true/false: decided by the surrounding loop/condition
+			}
+			for i := 0; i < k-1; i++ {
+				v := core.Unparen(r.Results[i])
+				if !core.IsPointer(info.TypeOf(v)) {
+					continue
+				}
+				n++
+				okPair := true
+				why := ""
+				switch x := v.(type) {
+				case *ast.IndexExpr:
+					if core.IsMap(info.TypeOf(x.X)) {
+						okPair = false
+						why = "the value is a map lookup taken without comma-ok (" + exprStr(x) + ") but the flag " + exprStr(flag) + " comes from elsewhere: a missing entry is reported as found with a nil value"
+					}
+				case *ast.Ident:
+					vo := core.ObjOf(info, x)
+					for _, d := range ld.Defs[vo] {
+						if d.Kind == core.DefMulti && d.Index == 0 {
+							if _, isIx := core.Unparen(d.Expr).(*ast.IndexExpr); isIx {
+								// the flag must be result 1 of the same statement
+								fo := core.ObjOf(info, flag)
+								same := false
+								for _, fd := range ld.Defs[fo] {
+									if fd.Kind == core.DefMulti && fd.Index == 1 && fd.Node == d.Node {
+										same = true
+									}
+								}
+								if !same {
+									okPair = false
+									why = "the value comes from the lookup " + exprStr(d.Expr) + " but the returned flag " + exprStr(flag) + " is not that lookup's comma-ok result"
+								}
+							}
+						}
+						if d.Kind == core.DefAssign {
+							if ix, isIx := core.Unparen(d.Expr).(*ast.IndexExpr); isIx && core.IsMap(info.TypeOf(ix.X)) {
+								okPair = false
+								why = "the value is a map lookup taken without comma-ok (" + exprStr(ix) + ")"
+							}
+						}
+					}
+				}
+				prop := "C14"
+				if strings.Contains(fi.Obj.Name(), "Param") {
+					prop = "C15"
+				}
+				for _, p := range []string{prop, "C15"} {
+					if p == "C15" && prop == "C15" && p != prop {
+						continue
+					}
+					c.S.Decide(okPair, p, "GUARD-LOOKUPFLAG", fi.QName(), c.P.Pos(r.Pos()),
+						"the returned value and its found-flag come from the same comma-ok lookup", why)
+					if prop == "C15" {
+						break
+					}
+				}
+			}
+			return true
+		})
+	}
+	if n < 1 {
+		c.S.Undecided("C14", "GUARD-LOOKUPFLAG", "floor", "-", "no (pointer, bool) query returning a looked-up value found (expected OperationFor)")
+	}
+}
